@@ -1716,7 +1716,8 @@ string StringReader::get_line(bool advance) {
     }
   }
   if (advance) {
-    this->offset += (ret.size() + 1);
+    // The last line may not be terminated; don't move beyond the end
+    this->offset = min<size_t>(this->offset + ret.size() + 1, this->length);
   }
   if (ends_with(ret, "\r")) {
     ret.pop_back();
